@@ -17,6 +17,7 @@ var propPkgs = map[string][]string{
 	"C12": {"pkg/convert"},
 	"C11": {"pkg/encoding"},
 	"C05": {"banyand/internal/snapshot"},
+	"C16": {"pkg/node", "pkg/partition", "pkg/convert"},
 }
 
 type Finding struct {
